@@ -94,7 +94,8 @@ impl Want {
 pub struct OpWorld {
     /// (canonical argument, spelling handed to the real command): lets a model work on canonical values while
     /// the command receives an equivalent spelling (C18: path aliases through `.`, `//`, `dir/..`)
-    pub arg_rewrite: Vec<(String, String)>,
+    /// (canonical argument, spelling, which occurrence of that canonical value among the arguments)
+    pub arg_rewrite: Vec<(String, String, usize)>,
     pub ctx: Context,
     pub env: Env,
     pub out: SimWriter,
@@ -116,7 +117,23 @@ impl OpWorld {
     pub fn run(&mut self, cmd: &str, args: &[String]) -> Out {
         let mut si = ScriptInstruction::new();
         si.command = Some(cmd.to_string());
-        let args: Vec<String> = args.iter().map(|a| self.arg_rewrite.iter().find(|(c, _)| c == a).map(|(_, sp)| sp.clone()).unwrap_or_else(|| a.clone())).collect();
+        let mut seen: Vec<(String, usize)> = vec![];
+        let args: Vec<String> = args
+            .iter()
+            .map(|a| {
+                let occ = match seen.iter_mut().find(|(v, _)| v == a) {
+                    Some(e) => {
+                        e.1 += 1;
+                        e.1 - 1
+                    }
+                    None => {
+                        seen.push((a.clone(), 1));
+                        0
+                    }
+                };
+                self.arg_rewrite.iter().find(|(c, _, k)| c == a && *k == occ).map(|(_, sp, _)| sp.clone()).unwrap_or_else(|| a.clone())
+            })
+            .collect();
         si.arguments = if args.is_empty() { None } else { Some(args) };
         let instruction = Instruction { meta_info: InstructionMetaInfo::new(), instruction_type: InstructionType::Script(si) };
         let (result, _) = runner::run_instruction(
